@@ -111,6 +111,13 @@ func (s *ClientSideCompositeSyncer) Sync(ctx context.Context, cm *claim.Unstruct
 	if xr.GetCompositionUpdatePolicy() != nil && *xr.GetCompositionUpdatePolicy() == xpv1.UpdateManual {
 		delete(wellKnownClaimFields, xcrd.CompositionRevisionRef)
 	}
+	// An XR that doesn't exist yet has no update policy of its own: it is about
+	// to get the claim's. Honor a Manual policy from the very first sync, or
+	// the XR would be created without the pinned revision and compose with
+	// the latest one.
+	if p := cm.GetCompositionUpdatePolicy(); !meta.WasCreated(xr) && p != nil && *p == xpv1.UpdateManual {
+		delete(wellKnownClaimFields, xcrd.CompositionRevisionRef)
+	}
 
 	cmSpec, ok := cm.Object["spec"].(map[string]any)
 	if !ok {
